@@ -303,6 +303,9 @@ func parseRule(str string) rule {
 		case token == tokEQUAL, token == tokPLUS+tokEQUAL, token == tokLESS+tokEQUAL: // Variable & Rlimit
 			res = append(res, kv{key: token})
 
+		case isAARE(token) && idx > 0: // A path is a single value, whatever it holds
+			res = append(res, kv{key: strings.Trim(token, "\n")})
+
 		case strings.Contains(token, "=") && !inAare: // Map
 			items := strings.SplitN(token, "=", 2)
 			key := items[0]
